@@ -122,7 +122,7 @@ def build_job(prop, tier, seed, n_episodes, grammars, steps=(12, 30), vocab_choi
         voc = vocab_for(rng, g, vc, canonical)
         # (never for grammars that refer to tokens by number: a range could name the extra EOS, and a grammar-named EOS
         #  is the corner in which C01's EOS clause and C19's range clause contradict each other)
-        if prop in MULTI_EOS and "<[" not in gram_text(g) and rng.random() < 0.25:
+        if prop in MULTI_EOS and "<[" not in gram_text(g) and rng.random() < (0.5 if prop == "C18" else 0.25):
             # several end-of-sequence tokens (TokTrie::with_eos_tokens): special tokens the grammar does not name
             names = [nm for nm in ("<|user|>", "<|tool|>", "<a>") if nm not in gram_text(g)]
             if names:
@@ -202,7 +202,7 @@ def run_driver(binary, job, jp, tp, timeout):
 
 
 def drive_and_validate(prop, tier, seed, job, res, nshards=8, cfg_view=None, binary="rel", module="Trace_EngineRel",
-                       timeout=1800):
+                       timeout=1800, also=()):
     """Run the driver over the job in shards, validate every shard's trace with TLC.
     Returns list of reject dicts (with episode metadata)."""
     wd = core.workdir(f"{prop}-{tier}")
@@ -218,6 +218,12 @@ def drive_and_validate(prop, tier, seed, job, res, nshards=8, cfg_view=None, bin
             json.dump(shards[ix], f)
         stats = run_driver(binary, shards[ix], jp, tp, timeout)
         tot = core.validate_file(module, tp, prop, tier, seed, cfg=cfg, timeout=timeout, tagbase=f"{prop}{ix}")
+        for m2 in also:
+            # the same recorded trace against a second specification
+            t2 = core.validate_file(m2, tp, prop, tier, seed, timeout=timeout, tagbase=f"{prop}{ix}{m2}")
+            tot["states"] += t2["states"]
+            tot["transitions"] += t2["transitions"]
+            tot["rejects"] += t2["rejects"]
         return stats, tot, tp
 
     outs = core.parallel(run, list(range(len(shards))), workers=nshards)
@@ -355,7 +361,7 @@ def check_rel(prop, tier, seed, n_quick, n_thorough, grammars=None, rule="", **k
     if prop == "C11" or (prop in ("C01", "C12") and tier != "quick"):
         from . import implmc
         implmc.u1(res, tier)
-    if prop in ("C11", "C12") or (prop == "C01" and tier != "quick"):
+    if prop == "C12" or (prop in ("C01", "C11") and tier != "quick"):
         from . import implmc
         for rj in implmc.u2(prop, tier, seed, res):
             res.violation(dict(signature(rj), part="u2-engineimpl-script"), rj["replay"])
